@@ -108,4 +108,16 @@ def dropLast' {α : Type} : List α → List α
   | [_] => []
   | a :: as => a :: dropLast' as
 
+/-! ### Safe-DS string literals (`safeds_stubgen/_helpers.py::escape_string_literal`, repair d913d69) -/
+
+/-- one character of a Python string inside a Safe-DS string literal -/
+def escapeStringChar (c : Char) : List Char :=
+  if c = '\\' then ['\\', '\\'] else if c = '"' then ['\\', '"'] else if c = '\n' then ['\\', 'n']
+  else if c = '\r' then ['\\', 'r'] else [c]
+
+/-- `escape_string_literal(value)`: the four `str.replace` calls act on single characters and never on each other's
+    output, so the result is the character-wise escape between two quotes -/
+def escapeStringLiteral (s : String) : String :=
+  String.ofList ('"' :: (s.toList.flatMap escapeStringChar ++ ['"']))
+
 end StubGen
